@@ -10,7 +10,7 @@ func TestMain(m *testing.M) {
 	case "driver":
 		driverMain()
 		return
-	case "worker":
+	case "worker", "race":
 		os.Exit(m.Run())
 	}
 	os.Exit(m.Run())
@@ -22,4 +22,12 @@ func TestWorker(t *testing.T) {
 		t.Skip("worker role only")
 	}
 	workerLoop(t)
+}
+
+// TestRaceFree is the auxiliary free-running pass of C15 (only meaningful in the -race build).
+func TestRaceFree(t *testing.T) {
+	if os.Getenv("VERIF_ROLE") != "race" {
+		t.Skip("race role only")
+	}
+	raceFreeRun(uint64(envInt("VERIF_RACE_SEED", 1)), envInt("VERIF_RACE_PROGRAMS", 100), envInt("VERIF_RACE_REPS", 20))
 }
